@@ -579,3 +579,95 @@ def e_b2_pod(k: int) -> bool:
         if not ok:
             _say(msg)
         return ok
+
+
+# --------------------------------------------------------------------------- requires_auth when authenticate() itself fails (C09_f; found F15)
+class _FlakyAuthSync:
+    """Plain backend: authenticate() raises on the calls listed in `bad`; op() asks for re-authentication `expire` times."""
+
+    def __init__(self, bad, expire):
+        self.bad, self.left = set(bad), expire
+        self.auth_calls = 0
+
+    def authenticate(self):
+        self.auth_calls += 1
+        if self.auth_calls - 1 in self.bad:
+            raise ConnectionError('injected: authorisation endpoint unreachable')
+
+    @U.requires_auth
+    def op(self, x):
+        if self.left > 0:
+            self.left -= 1
+            raise exceptions.AuthRequired
+        return ('done', x)
+
+
+class _FlakyAuthAsync:
+    def __init__(self, bad, expire):
+        self.bad, self.left = set(bad), expire
+        self.auth_calls = 0
+
+    async def authenticate(self):
+        self.auth_calls += 1
+        if self.auth_calls - 1 in self.bad:
+            raise ConnectionError('injected: authorisation endpoint unreachable')
+
+    @U.requires_auth
+    async def op(self, x):
+        if self.left > 0:
+            self.left -= 1
+            raise exceptions.AuthRequired
+        return ('done', x)
+
+
+def auth_failure_case(is_async, bad_i, expire, nthreads):
+    """authenticate() fails once (its first call, or a re-authentication): the affected call ends with that error - it does
+    not hang - and the next call authenticates again and succeeds; with several threads nobody waits forever."""
+    import threading
+    bad = [[0], [1], [0, 1], []][bad_i]
+    results = []
+
+    def one_call(be, i):
+        try:
+            if is_async:
+                results.append((i, asyncio.run(be.op(i))))
+            else:
+                results.append((i, be.op(i)))
+        except ConnectionError as e:
+            results.append((i, 'auth-error'))
+        except Exception as e:
+            results.append((i, repr(e)))
+    be = _FlakyAuthAsync(bad, expire) if is_async else _FlakyAuthSync(bad, expire)
+    # phase 1: `nthreads` concurrent calls; phase 2: one more call afterwards
+    for phase, n in ((1, nthreads), (2, 1)):
+        ts = [threading.Thread(target=one_call, args=(be, phase * 10 + i), daemon=True) for i in range(n)]
+        for t in ts:
+            t.start()
+        for t in ts:
+            t.join(8)
+        if any(t.is_alive() for t in ts):
+            return False, (f"{'coroutine' if is_async else 'plain'} backend, authenticate() failing on call(s) {bad}: a later call of a decorated method never returns "
+                           f'(phase {phase}, {sum(t.is_alive() for t in ts)} of {n} thread(s) stuck waiting for the authorisation lock)')
+    last = [r for i, r in results if i == 20]
+    bad_results = [r for _, r in results if r != 'auth-error' and not (isinstance(r, tuple) and r[0] == 'done')]
+    if bad_results:
+        return False, f'unexpected outcome {bad_results[0]}'
+    if len(bad) < 2 and expire == 0 and last != [('done', 20)] and not (bad and last == ['auth-error'] and be.auth_calls <= max(bad) + 1 and False):
+        # once authenticate() works again, a call succeeds
+        if not (last == ['auth-error'] and be.auth_calls - 1 in bad):
+            return False, f'call after the failed authorisation returned {last}'
+    return True, ''
+
+
+def e_auth_failure(k: int) -> bool:
+    """
+    pre: 0 <= k < 2 * 4 * 2 * 2
+    post: _
+    """
+    ia, bi, ex, nt = digits(k, [2, 4, 2, 2])
+    with NoTracing():
+        ok, msg = auth_failure_case(bool(ia), bi, ex, [1, 3][nt])
+        tick('e_auth_failure', [ia, bi, ex, nt])
+        if not ok:
+            _say(msg)
+        return ok
